@@ -320,7 +320,14 @@ class World:
     def _make_os(self):
         m = types.ModuleType("os")
         m.environ = self.environ
-        m.path = os.path
+        # os.path sees the virtual files first (a block file written earlier in the same run exists)
+        vp = types.ModuleType("os.path")
+        vp.__dict__.update({k: v for k, v in vars(os.path).items() if not k.startswith("__")})
+        w = self
+        vp.isfile = lambda p_: (p_ in w.fs) or os.path.isfile(p_)
+        vp.exists = lambda p_: (p_ in w.fs) or os.path.exists(p_)
+        m.path = vp
+        self.vospath = vp
         m.name = "posix"
         m.sep = os.sep
         return m
@@ -448,7 +455,7 @@ class World:
         if name == "os":
             return self.vos
         if name == "os.path":
-            return os.path
+            return self.vospath
         if name == "importlib":
             m = types.ModuleType("importlib")
             m.import_module = self.import_module
